@@ -516,6 +516,20 @@ func (g *generator) declareReference(v cue.Value, defV cue.Value) (ast.Type, err
 
 		// Reference to another package
 		if refPkg != g.schema.Package {
+			// what CUE itself defines (`time.Duration`, `net.IP`, …) has no position in any
+			// source and is no object that an input can provide: it is described by its type.
+			if referred := referenceRootValue.LookupPath(path); !referred.Pos().IsValid() {
+				typeDef, err := g.declareNode(referred)
+				if err != nil {
+					return ast.Type{}, err
+				}
+				if defValue != nil {
+					typeDef.Default = defValue
+				}
+
+				return typeDef, nil
+			}
+
 			// only the top-level fields of a package are declared as objects: a value nested
 			// in one of them (`common.#Dashboard.time`) has no name there. It is inlined.
 			if len(path.Selectors()) > 1 {
